@@ -110,7 +110,15 @@ def run():
         cfgp.update(volume_variation=[None, 1.0][j % 2], pin_limit=lp[j % len(lp)])
         tasks.append(("tvf.checks.c10:cell", dict(cfg=cfgp, c=float([1e3, -1e3, 100 * math.sqrt(2), -37.25][j % 4]),
                                                    seeds=[ck.subseed("pin", j, r) % 10 ** 6 for r in range(4)]), None))
-    for i in range(len(tasks) - npin):
+    # the prior transform hands over single-precision coordinates (nothing derived from logL may inherit that precision:
+    # rounding logL on an absolute grid does not commute with the shift)
+    n32 = ck.pick(6, 36)
+    for j in range(n32):
+        cfg32 = {k: v for k, v in runs.small_cfg(j + 3).items() if k != "seed"}
+        cfg32.update(xdtype="float32", mode=["scalar", "vec", "blobs", "scalar"][j % 4])
+        tasks.append(("tvf.checks.c10:cell", dict(cfg=cfg32, c=float([700.0, -950.0, 300.0, 1e3, -64.0, 2 ** 20 + 0.5][j % 6]),
+                                                   seeds=[ck.subseed("f32", j, r) % 10 ** 6 for r in range(4)]), None))
+    for i in range(len(tasks) - npin - n32):
         if i % 3 == 1:     # a third of the small cells use an irrational shift as well
             tasks[i][1]["c"] = float(tasks[i][1]["c"] * math.sqrt(2) / 1.4)
     for i, st, val in farm.run(tasks, timeout=900, progress="C10"):
@@ -122,6 +130,8 @@ def run():
             ck.violation("pair-crashed", f"{kw['cfg']}: {st} {str(val)[-300:]}", kw)
             continue
         bad, T, npairs = val
+        if kw["cfg"].get("xdtype") is not None:
+            ck.event("pairs whose prior transform returns single-precision coordinates", 1)
         if kw["cfg"].get("pin_limit") is not None:
             ck.event("pairs in which the ESS limit of one iteration was injected inside the last 2e-4 below one", int(T > 0))
         ck.case(dict(cfg=kw["cfg"], c=kw["c"]), nontrivial=T > 2)
